@@ -128,7 +128,10 @@ impl Language for Scala {
             writeln!(w, " */")?;
         }
         if self.package.is_empty() {
-            panic!("package name must be provided")
+            return Err(std::io::Error::new(
+                std::io::ErrorKind::InvalidInput,
+                "package name must be provided",
+            ));
         }
         match self.package.rsplit_once('.') {
             None => {}
